@@ -154,6 +154,43 @@ func runC02(w *World, r *Report) {
 	// (d) reset on fire
 	ruleClearOnRead(w, r, "C02.ready-guards")
 	reportSkipExact(w, r, "C02.ready-guards")
+	// "… and at least one of them actually routed to it": a channel without any predecessor (a node no edge, branch or
+	// dependency leads to) has nothing that could route to it — the vacuous "nobody is waiting" must not make it ready
+	{
+		get := methodOf(w, dagT, "get")
+		isEmptinessTest := func(in ssa.Instruction) bool {
+			iff, ok := in.(*ssa.If)
+			if !ok {
+				return false
+			}
+			found := false
+			var walk func(v ssa.Value, d int)
+			walk = func(v ssa.Value, d int) {
+				if d > 4 || v == nil {
+					return
+				}
+				if isLenOf(v, func(x ssa.Value) bool { return isLoadOfField(x, fCP) }) {
+					found = true
+				}
+				if b, ok := v.(*ssa.BinOp); ok {
+					walk(b.X, d+1)
+					walk(b.Y, d+1)
+				}
+			}
+			walk(iff.Cond, 0)
+			return found
+		}
+		readyRet := func(in ssa.Instruction) bool {
+			ret, ok := in.(*ssa.Return)
+			if !ok || len(ret.Results) != 3 {
+				return false
+			}
+			c, ok := returnedValue(ret, 1).(*ssa.Const)
+			return ok && c.Value != nil && c.Value.String() == "true"
+		}
+		vac, wit := pathQuery{fn: get, goal: readyRet, avoid: isEmptinessTest}.exists()
+		r.Check(!vac, "C02.ready-guards", "dagChannel.get: a channel without predecessors is never ready", get.Pos(), "every ready return is preceded by the test of len(ControlPredecessors)", "a ready return is reachable without looking at whether the channel has any predecessor ("+wit+"): for a node nothing leads to, 'no control predecessor is waiting' and 'every data predecessor reported' hold vacuously on every poll — the node is scheduled again in every step (3 times in a 3-step DAG, a busy loop in an idle Workflow) although nothing ever routed to it")
+	}
 
 	// ---- cycle gate
 	// ---- what a data predecessor reports is kept: the store into Values is reached for every reported key that is a
